@@ -90,6 +90,7 @@ def run(ctx):
                     if limit is not None and line + 1 > limit:
                         ctx.violation("C07:beyond-limit-validated", "a row beyond the limit %d was validated: %s" % (limit, e), case)
     reused_app_cases(ctx)
+    command_line_cases(ctx)
 
 
 def reused_app_cases(ctx):
@@ -120,6 +121,49 @@ def reused_app_cases(ctx):
                               {"first": first, "second": second, "limit": got})
     finally:
         import shutil
+        shutil.rmtree(tmp_dir, ignore_errors=True)
+
+
+def command_line_cases(ctx):
+    """`--until N` on the command line: exit code 0 iff no row with number <= N (header rows counted) is rejected"""
+    from cutplace import applications
+
+    import logging
+    import os
+    import shutil
+    import sys
+    import tempfile
+    tmp_dir = tempfile.mkdtemp(prefix="c07-")
+    logging.disable(logging.CRITICAL)
+    old_err = sys.stderr
+    try:
+        sys.stderr = open(os.devnull, "w")
+        for header in (0, 1, 2):
+            cid_path = os.path.join(tmp_dir, "cid%d.csv" % header)
+            with open(cid_path, "w") as f:
+                f.write("D,Format,Delimited\nD,Header,%d\nF,a,,,,Integer,1...9\n" % header)
+            for bad in range(1, 7):
+                data_path = os.path.join(tmp_dir, "d%d_%d.csv" % (header, bad))
+                with open(data_path, "w") as f:
+                    f.write("".join(("x" if row == bad else "5") + "\n" for row in range(1, 7)))
+                for until in (None, -1, 0, 1, 2, 3, 4, 5, 6, 7):
+                    argv = ["cutplace"] + ([] if until is None else ["--until", str(until)]) + [cid_path, data_path]
+                    try:
+                        code = applications.main(argv)
+                    except SystemExit as error:
+                        code = error.code
+                    limit = None if until in (None, -1) else until
+                    rejected = bad > header and (limit is None or bad <= limit)
+                    want = 1 if rejected else 0
+                    ctx.count(key=("cli", header, bad, until), branch="cli-until")
+                    if code != want:
+                        ctx.violation("C07:cli-until:exit-%s-instead-of-%s:%s" % (code, want, "zero" if until == 0 else ("none" if limit is None else "n")),
+                                      "header %d, broken row %d, --until %r: exit code %r, expected %r" % (header, bad, until, code, want),
+                                      {"header": header, "bad_row": bad, "until": until, "exit": code})
+    finally:
+        sys.stderr.close()
+        sys.stderr = old_err
+        logging.disable(logging.NOTSET)
         shutil.rmtree(tmp_dir, ignore_errors=True)
 
 
